@@ -301,6 +301,10 @@ class MockHosts:
         self.stop = True
         for s in self.listeners:
             try:
+                s.shutdown(socket.SHUT_RDWR)
+            except OSError:
+                pass
+            try:
                 s.close()
             except OSError:
                 pass
